@@ -14,6 +14,6 @@ PROP = dict(
     modelled="the decision procedure and its frame are modelled and proved; signature verification, transaction admission (C07/C08) and execution are oracles; ECDSA and the VM are neither modelled nor verified here",
 )
 META = dict(
-    text="Proved in Coq for all states and block descriptions: a block is accepted iff it satisfies the conjunction the property lists (in the real order of checks), a rejected block leaves height, tip, state root and mempool unchanged and the header chain unchanged unless its header alone was valid (then exactly that header is appended), and the valid block is accepted afterwards. Soundness for the two clauses the pinned code does not enforce (consensus witness when the header is already recorded, F36; mutually exclusive transactions inside one block, F35) is proved for the repaired variant and refuted by witnesses for the code as it stands. Tied to the Go code by applying every single corruption of the valid next block at generated chain states to fresh replicas and comparing verdict, full database dump, mempool and heights. Partial: witness verification, transaction admission and execution are oracles.",
+    text="Proved in Coq for all states and block descriptions: a block is accepted iff it satisfies the conjunction the property lists (in the real order of checks), a rejected block leaves height, tip, state root and mempool unchanged and the header chain unchanged unless its header alone was valid (then exactly that header is appended), and the valid block is accepted afterwards. Soundness for the two clauses the pinned code does not enforce (consensus witness when the header is already recorded, F36; mutually exclusive transactions inside one block, F35) is proved for the repaired variant and refuted by witnesses for the code as it stands. Over several blocks (Node/AcceptPool.v): with the mempool refresh of storeBlock evaluated at the new height and keeping only what a fresh verification admits, every transaction of an accepted block is valid at the time of the offer whether the node held it in its mempool or not; refuted for a refresh against the old height and for a refresh that re-checks less (F46: Policy block list). Tied to the Go code by applying every single corruption of the valid next block at generated chain states to fresh replicas and comparing verdict, full database dump, mempool and heights, plus the stale-pool family (pool at H, intervening block, offer at H+2, pooled and not pooled). Partial: witness verification, transaction admission and execution are oracles.",
     note="Trusted: Coq kernel and vm_compute, the Go harness (corruptions, classification, dumps), orchestration. Oracles: VerifyWitness, scratch-pool admission, block execution (evaluated by the real code per case).",
 )
